@@ -95,7 +95,11 @@ pub fn key_sets(rng: &mut gen::R, tables: usize, buckets: usize, style: usize, n
 /// Sequential exact audit. Returns false on a violation.
 pub fn sequential(rng: &mut gen::R, tables: usize, buckets: usize, style: usize, ops: usize, rep: &mut Report) -> bool {
     let t = Table::new(tables, buckets);
-    let nk = rng.gen_range(1..60);
+    // few keys (many refreshes and lookups of the same entries) or, every other time, more keys than the table holds
+    // (a table must pass through every fill level up to saturation)
+    let full = tables * buckets * SLOTS;
+    let nk = if full > 59 && full <= 1_000 && rng.gen_bool(0.35) { rng.gen_range(full / 3..full * 3 / 2 + 2) } else { rng.gen_range(1..60) };
+    let ops = ops.max((nk * 2).min(1_500));
     let keys = key_sets(rng, tables, buckets, style, nk);
     let mut model: HashMap<u64, u64> = HashMap::new(); // key -> id of the latest insert
     let (mut snap, mut count, _) = snapshot(&t);
@@ -128,32 +132,34 @@ pub fn sequential(rng: &mut gen::R, tables: usize, buckets: usize, style: usize,
             return false;
         }
         let home = home[0];
-        for b in snap.keys().chain(new.keys()).collect::<HashSet<_>>() {
-            let old: HashSet<u64> = snap.get(b).map(|v| v.iter().copied().collect()).unwrap_or_default();
-            let now: HashSet<u64> = new.get(b).map(|v| v.iter().copied().collect()).unwrap_or_default();
-            if *b != home {
-                if old != now {
-                    rep.violation("other-bucket-changed", &sig("other-bucket-changed"), &format!("inserting {:#x} into bucket {:?} changed bucket {:?}", k, home, b), replay(&trace));
-                    return false;
-                }
-                continue;
+        // The audit speaks about keys, not about where the implementation keeps them (a table may move entries
+        // between buckets, e.g. when it grows, without breaking the property): nothing appears that was not inserted;
+        // refreshing a stored key loses nothing; a new key loses nothing or exactly one other key, and then only one
+        // whose bucket was full before, while the new key sits in a full bucket afterwards.
+        let old_all: HashSet<u64> = snap.values().flatten().copied().collect();
+        let new_all: HashSet<u64> = new.values().flatten().copied().collect();
+        if let Some(x) = new_all.iter().find(|x| **x != k && !old_all.contains(x)) {
+            rep.violation("bucket-content", &sig("bucket-content"), &format!("after inserting {:#x} the table also holds {:#x}, which it did not hold before", k, x), replay(&trace));
+            return false;
+        }
+        if let Some((b, ks)) = new.iter().find(|(_, ks)| ks.len() > SLOTS) {
+            rep.violation("bucket-content", &sig("bucket-content"), &format!("bucket {:?} holds {} keys (slots per bucket: {})", b, ks.len(), SLOTS), replay(&trace));
+            return false;
+        }
+        let lost: Vec<u64> = old_all.difference(&new_all).copied().collect();
+        if old_all.contains(&k) {
+            if !lost.is_empty() {
+                rep.violation("bucket-content", &sig("bucket-content"), &format!("storing again under {:#x}, which the table already held, made {} other key(s) disappear", k, lost.len()), replay(&trace));
+                return false;
             }
-            let mut want = old.clone();
-            want.insert(k);
-            if old.contains(&k) || old.len() < SLOTS {
-                if now != want {
-                    rep.violation("bucket-content", &sig("bucket-content"), &format!("bucket {:?} had {} keys; after inserting {:#x} it should hold exactly the old keys plus it, but holds {} keys", b, old.len(), k, now.len()), replay(&trace));
-                    return false;
-                }
-            } else {
-                // full bucket, new key: exactly one victim, which is not k
-                let lost: Vec<&u64> = want.difference(&now).collect();
-                if now.len() != SLOTS || lost.len() != 1 || *lost[0] == k || !now.is_subset(&want) {
-                    rep.violation("displacement", &sig("displacement"), &format!("full bucket {:?}: inserting {:#x} must displace exactly one other key; now {} keys, {} lost", b, k, now.len(), lost.len()), replay(&trace));
-                    return false;
-                }
-                rep.count("displacements", 1);
+        } else if !lost.is_empty() {
+            let lost_bucket_full = lost.len() == 1 && snap.iter().any(|(_, ks)| ks.contains(&lost[0]) && ks.len() == SLOTS);
+            let home_full = new.get(&home).map(|ks| ks.len() == SLOTS).unwrap_or(false);
+            if lost.len() != 1 || !lost_bucket_full || !home_full {
+                rep.violation("displacement", &sig("displacement"), &format!("inserting the new key {:#x} (now in bucket {:?}) made {} key(s) disappear; allowed: none, or one key of a bucket that was full, the new key then sitting in a full bucket (lost key's bucket was full: {}, new key's bucket is full: {})", k, home, lost.len(), lost_bucket_full, home_full), replay(&trace));
+                return false;
             }
+            rep.count("displacements", 1);
         }
         if t.entries() != n || n > cap {
             rep.violation("entry-count", &sig("entry-count"), &format!("entries() = {}, occupied slots = {}, capacity = {}", t.entries(), n, cap), replay(&trace));
@@ -430,7 +436,9 @@ fn audit_live(rng: &mut gen::R, rep: &mut Report) {
 
 pub fn run(ctx: &Ctx, rep: &mut Report) {
     let mut rng = gen::shard_rng(ctx.seed, ctx.shard, 15);
-    let geoms: [(usize, usize); 8] = [(1, 1), (1, 2), (2, 1), (2, 5), (3, 7), (4, 4), (8, 16), (128, 3)];
+    // shard and bucket counts of every shape: 1, small primes, powers of two, counts just above a power of two and
+    // in between (an implementation may size or route by rounding to powers of two)
+    let geoms: [(usize, usize); 14] = [(1, 1), (1, 2), (2, 1), (2, 5), (3, 7), (4, 4), (8, 16), (128, 3), (1, 17), (1, 24), (2, 40), (5, 100), (6, 10), (3, 33)];
     if let Some(path) = &ctx.replay {
         let v: serde_json::Value = serde_json::from_slice(&std::fs::read(path).expect("replay file")).expect("replay json");
         let (tables, buckets) = (v["tables"].as_u64().unwrap_or(1) as usize, v["buckets"].as_u64().unwrap_or(1) as usize);
@@ -475,7 +483,7 @@ pub fn run(ctx: &Ctx, rep: &mut Report) {
     while n > 0 && ctx.time_left() {
         let (tables, buckets) = *geoms.choose(&mut rng).unwrap();
         let style = rng.gen_range(0..5);
-        let ops = if tables * buckets > 64 { 40 } else { 250 };
+        let ops = if tables * buckets > 512 { 60 } else if tables * buckets > 64 { 400 } else { 250 };
         sequential(&mut rng, tables, buckets, style, ops, rep);
         n -= 1;
     }
